@@ -34,12 +34,16 @@ CONSTANTS LastDay,     \* last day number of the calendar machine (2932896 = 999
           TailFrom,    \* ... and again from TailFrom on; in between it only takes 400-year jumps
                        \*     (StepUntil = TailFrom = LastDay: every single day, no jump needed)
           MaxN,        \* the number machine counts 0 .. MaxN  (MaxN < 2^31)
-          NumLane      \* lane length of the number machine (see Skip)
+          NumLane,     \* lane length of the number machine (see Skip)
+          LeapRule,    \* "gregorian"; "julian" (every fourth year) only in MC_Fmt_julian.cfg, where TLC must find the
+                       \*   disagreement with the closed form on 2100-02-29 (non-vacuity of CalAgree)
+          StartDay     \* 0: the machine starts on Thursday 1970-01-01 (every configuration but the non-vacuity one, which
+                       \*   starts on 2100-01-01 to keep the counterexample short)
 
 -----------------------------------------------------------------------------
 (* Calendar: definitional pieces                                            *)
 
-Leap(yy) == (yy % 4 = 0 /\ yy % 100 # 0) \/ yy % 400 = 0
+Leap(yy) == IF LeapRule = "julian" THEN yy % 4 = 0 ELSE (yy % 4 = 0 /\ yy % 100 # 0) \/ yy % 400 = 0
 DaysIn(yy, mm) == CASE mm \in {1, 3, 5, 7, 8, 10, 12} -> 31
                     [] mm \in {4, 6, 9, 11}           -> 30
                     [] OTHER                          -> IF Leap(yy) THEN 29 ELSE 28
@@ -213,7 +217,8 @@ clk == <<kSod, kH, kMi, kS>>
 num == <<nN, nDec, nHex>>
 vars == <<cal, clk, num>>
 
-Init == /\ cDay = 0 /\ cY = Epoch.y /\ cM = Epoch.m /\ cD = Epoch.d /\ cWd = Epoch.wd
+Start == IF StartDay = 0 THEN Epoch ELSE CivilFromDays(StartDay)
+Init == /\ cDay = StartDay /\ cY = Start.y /\ cM = Start.m /\ cD = Start.d /\ cWd = Start.wd
         /\ kSod = 0 /\ kH = 0 /\ kMi = 0 /\ kS = 0
         /\ nN = 0 /\ nDec = <<0>> /\ nHex = <<0>>
 
@@ -252,8 +257,8 @@ Skip == /\ nN % NumLane = 0 /\ nN + NumLane <= MaxN /\ nN' = nN + NumLane
         /\ nDec' = IntDigits(nN', 10) /\ nHex' = IntDigits(nN', 16)
 
 AtOrigin(v) == CASE v = "cal" -> kSod = 0 /\ nN = 0
-                 [] v = "clk" -> cDay = 0 /\ nN = 0
-                 [] v = "num" -> cDay = 0 /\ kSod = 0
+                 [] v = "clk" -> cDay = StartDay /\ nN = 0
+                 [] v = "num" -> cDay = StartDay /\ kSod = 0
 Next == \/ (AtOrigin("cal") /\ (NextDay \/ Jump400) /\ UNCHANGED <<clk, num>>)
         \/ (AtOrigin("clk") /\ Tick /\ UNCHANGED <<cal, num>>)
         \/ (AtOrigin("clk") /\ Rollover /\ UNCHANGED num)
@@ -267,7 +272,7 @@ CalAgree == /\ CivilFromDays(cDay) = CalNow
 CalEnd   == cDay = LastDay => (cY = 9999 /\ cM = 12 /\ cD = 31 /\ LastDay = 2932896)
 ClockAgree == HMS(kSod) = [h |-> kH, mi |-> kMi, s |-> kS] /\ kSod = 3600 * kH + 60 * kMi + kS /\ kH < 24
 \* (evaluated on the number axis only: the other axes keep nN = 0, which the origin state covers)
-NumAgree == (cDay = 0 /\ kSod = 0) =>
+NumAgree == (cDay = StartDay /\ kSod = 0) =>
   LET L == LimbsOfInt(nN) IN
   /\ IsLimbs(L)
   /\ LimbsToDec(L) = nDec /\ IntDigits(nN, 10) = nDec /\ Canonical(nDec)
